@@ -1,137 +1,271 @@
 """Nonlinear real-arithmetic lemmas about `rmul` (the uninterpreted product of fp.py).
 
-Each lemma is a closed statement schema over reals.  It is *proved* once per run
-by substituting true multiplication for rmul and asking z3 (nlsat) for
-unsatisfiability of the negation; contracts then *instantiate* it at the terms
-they need (`inst`).  Because rmul is uninterpreted in the main VC and the
-instances are consequences of real multiplication, an `unsat` main VC is valid
-for the real product.
+Each lemma is a closed statement schema over reals, `hyps ==> concl`.  It is *proved*
+once per run by substituting true multiplication for rmul and asking z3 (nlsat) for
+unsatisfiability of the negation (and, as a vacuity guard, satisfiability of the
+hypotheses); contracts *instantiate* it at the terms they need (`inst`).  Because
+rmul is uninterpreted in the main VC and the instances are consequences of real
+multiplication, an `unsat` main VC is valid for the real product.
+
+The `big` lemmas carry the mathematical content of one pruning formula each: from
+the similarity premise in product form and the rounding relations of every float
+operation of the formula, the exact value fed into the final round/ceil/floor is
+within a few ulps of the integer bound it must respect.
 """
 import time
+from fractions import Fraction
 import z3
 from . import fp as FP
 
 LEMMAS = {}
+USED = set()
+e_ = FP.EPS2
+TLOW = z3.RealVal(Fraction(1, 2 ** 500))      # below this threshold float products of t may underflow
 
 
-def lemma(name, nargs, sqrt_args=()):
+def lemma(name):
     def deco(f):
-        LEMMAS[name] = (f, nargs, sqrt_args)
+        import inspect
+        n = len(inspect.signature(f).parameters) - 1
+        LEMMAS[name] = (f, n)
         return f
     return deco
 
 
 def inst(name, *args):
-    f, n, _ = LEMMAS[name]
-    assert len(args) == n, name
+    f, n = LEMMAS[name]
+    assert len(args) == n, '%s expects %d arguments, got %d' % (name, n, len(args))
     args = [z3.ToReal(a) if z3.is_int(a) else a for a in args]
     USED.add(name)
-    return f(FP.exact_mul, *args)
+    hyps, concl = f(FP.exact_mul, *args)
+    return z3.Implies(z3.And(*hyps), concl) if hyps else concl
 
 
-USED = set()
+def up(r, x):
+    """r = fl(x) for x >= 0 in the normal range."""
+    return z3.And(r >= 0, r <= x * (1 + e_), r >= x * (1 - e_))
 
 
-@lemma('mul_mono_r', 3)
+# ----------------------------------------------------------------- small lemmas
+@lemma('mul_mono_r')
 def _(mul, a, b, c):
-    """a >= 0 and b <= c  ==>  a*b <= a*c"""
-    return z3.Implies(z3.And(a >= 0, b <= c), mul(a, b) <= mul(a, c))
+    return [a >= 0, b <= c], mul(a, b) <= mul(a, c)
 
 
-@lemma('mul_mono_scaled', 4)
-def _(mul, a, q, k, c):
-    """a <= k*q and c >= 0  ==>  a*c <= k*(q*c)      (k is used with constant values)"""
-    return z3.Implies(z3.And(a <= k * q, c >= 0), mul(a, c) <= k * mul(q, c))
-
-
-@lemma('mul_mono_scaled_ge', 4)
-def _(mul, a, q, k, c):
-    """a >= k*q and c >= 0  ==>  a*c >= k*(q*c)"""
-    return z3.Implies(z3.And(a >= k * q, c >= 0), mul(a, c) >= k * mul(q, c))
-
-
-@lemma('mul_nonneg', 2)
+@lemma('mul_nonneg')
 def _(mul, a, b):
-    return z3.Implies(z3.And(a >= 0, b >= 0), mul(a, b) >= 0)
+    return [a >= 0, b >= 0], mul(a, b) >= 0
 
 
-@lemma('mul_le_right', 2)
+@lemma('mul_pos')
 def _(mul, a, b):
-    """0 <= a <= 1 and b >= 0  ==>  a*b <= b"""
-    return z3.Implies(z3.And(a >= 0, a <= 1, b >= 0), mul(a, b) <= b)
+    return [a > 0, b > 0], mul(a, b) > 0
 
 
-@lemma('mul_pos', 2)
+@lemma('mul_le_right')
 def _(mul, a, b):
-    return z3.Implies(z3.And(a > 0, b > 0), mul(a, b) > 0)
+    return [a >= 0, a <= 1, b >= 0], mul(a, b) <= b
 
 
-@lemma('mul_assoc', 3)
-def _(mul, a, b, c):
-    return mul(mul(a, b), c) == mul(a, mul(b, c))
+@lemma('mul_lower')
+def _(mul, a, b, ca, cb):
+    """a >= ca >= 0 and b >= cb >= 0  ==>  a*b >= ca*cb      (ca, cb constants)"""
+    return [ca >= 0, cb >= 0, a >= ca, b >= cb], mul(a, b) >= ca * cb
 
 
-@lemma('mul_distrib', 3)
-def _(mul, a, b, c):
-    return mul(a, b + c) == mul(a, b) + mul(a, c)
+@lemma('mul_upper')
+def _(mul, a, b, ca, cb):
+    """0 <= a <= ca and 0 <= b <= cb  ==>  a*b <= ca*cb      (ca, cb constants)"""
+    return [a >= 0, b >= 0, a <= ca, b <= cb], mul(a, b) <= ca * cb
 
 
-@lemma('mul_scale', 3)
-def _(mul, a, k, b):
-    """a*(k*b) = k*(a*b)"""
-    return mul(a, k * b) == k * mul(a, b)
+@lemma('quot_upper')
+def _(mul, q, d, a, c):
+    """q*d = a, d >= c > 0, a >= 0  ==>  0 <= q <= a/c      (c constant)"""
+    return [mul(q, d) == a, d >= c, c > 0, a >= 0], z3.And(q >= 0, q <= a / c)
 
 
-@lemma('mul_cancel_le', 3)
-def _(mul, a, b, c):
-    """c > 0 and a*c <= b*c  ==>  a <= b"""
-    return z3.Implies(z3.And(c > 0, mul(a, c) <= mul(b, c)), a <= b)
+@lemma('quot_lower')
+def _(mul, q, d, a, c):
+    """q*d = a, 0 < d <= c, a >= 0  ==>  q >= a/c      (c constant)"""
+    return [mul(q, d) == a, d > 0, d <= c, a >= 0], q >= a / c
 
 
-@lemma('mul_cancel_lt', 3)
-def _(mul, a, b, c):
-    """c > 0 and a*c < b*c  ==>  a < b"""
-    return z3.Implies(z3.And(c > 0, mul(a, c) < mul(b, c)), a < b)
+@lemma('sqrt_upper')
+def _(mul, s, a, c):
+    """s >= 0, s*s = a, a <= c*c, c >= 0  ==>  s <= c"""
+    return [s >= 0, mul(s, s) == a, a <= c * c, c >= 0], s <= c
 
 
-@lemma('mul_mono_both', 4)
-def _(mul, a, b, c, d):
-    """0 <= a <= c and 0 <= b <= d  ==>  a*b <= c*d"""
-    return z3.Implies(z3.And(a >= 0, a <= c, b >= 0, b <= d), mul(a, b) <= mul(c, d))
+@lemma('sqrt_lower')
+def _(mul, s, a, c):
+    """s >= 0, s*s = a, a >= c*c, c >= 0  ==>  s >= c"""
+    return [s >= 0, mul(s, s) == a, a >= c * c, c >= 0], s >= c
 
 
-@lemma('sq_mono', 2)
-def _(mul, a, b):
-    """0 <= a <= b  ==>  a*a <= b*b"""
-    return z3.Implies(z3.And(a >= 0, a <= b), mul(a, a) <= mul(b, b))
+@lemma('mul_abs')
+def _(mul, a, b, ca, cb):
+    """|a| <= ca and |b| <= cb  ==>  |a*b| <= ca*cb      (ca, cb constants)"""
+    return [a <= ca, a >= -ca, b <= cb, b >= -cb], z3.And(mul(a, b) <= ca * cb, mul(a, b) >= -ca * cb)
 
 
-@lemma('sq_mono_inv', 2)
-def _(mul, a, b):
-    """a >= 0, b >= 0, a*a <= b*b  ==>  a <= b"""
-    return z3.Implies(z3.And(a >= 0, b >= 0, mul(a, a) <= mul(b, b)), a <= b)
+@lemma('quot_abs')
+def _(mul, q, d, a, cd, ca):
+    """q*d = a, |d| >= cd > 0, |a| <= ca  ==>  |q| <= ca/cd      (cd, ca constants)"""
+    return [mul(q, d) == a, cd > 0, z3.Or(d >= cd, d <= -cd), a <= ca, a >= -ca], \
+        z3.And(q <= ca / cd, q >= -ca / cd)
 
 
-@lemma('mul_comm4', 4)
-def _(mul, a, b, c, d):
-    """(a*b)*(c*d) = (a*c)*(b*d)"""
-    return mul(mul(a, b), mul(c, d)) == mul(mul(a, c), mul(b, d))
+@lemma('mul_lower_scaled')
+def _(mul, h, x, k):
+    """h >= k >= 0 and x >= 0  ==>  h*x >= k*x      (k constant)"""
+    return [h >= k, k >= 0, x >= 0], mul(h, x) >= k * x
 
 
-def prove_all(timeout_ms=20000, only=None):
+@lemma('dice_g_le_one')
+def _(mul, t, w, gq, g, x):
+    """g = fl(t / fl(2-t)) is at most 1 (+ulps):  g*x <= x*(1+4e) + 1e-9"""
+    return [t > 0, t <= 1, up(w, 2 - t), mul(gq, w) == t, g >= 0, g <= gq * (1 + e_) + FP.ETA,
+            x >= 0, x <= 2 ** 31], mul(g, x) <= x * (1 + 4 * e_) + z3.RealVal('1/1000000000')
+
+
+# ------------------------------------------------------- similarity premises
+def _common(t, o, a, b):
+    return [t > 0, t <= 1, o >= 1, o <= a, o <= b]
+
+
+def _jac_sim(mul, t, qs, o, a, b):
+    return z3.Or(z3.And(o == a, o == b),
+                 z3.And(mul(qs, a + b - o) == o, qs >= 0, t <= (1 + e_) * qs))
+
+
+def _dice_sim(mul, t, qs, o, a, b):
+    return z3.Or(z3.And(o == a, o == b),
+                 z3.And(mul(qs, a + b) == 2 * o, qs >= 0, t <= (1 + e_) * qs))
+
+
+def _cos_sim(mul, t, qs, o, a, b, Sa, Sb, sa, sb, d):
+    return z3.Or(z3.And(o == a, o == b),
+                 z3.And(Sa >= 0, Sb >= 0, mul(Sa, Sa) == a, mul(Sb, Sb) == b, up(sa, Sa), up(sb, Sb),
+                        up(d, mul(sa, sb)), mul(qs, d) == o, qs >= 0, t <= (1 + e_) * qs))
+
+
+# ------------------------------------------------------------------ JACCARD
+@lemma('jac_low')
+def _(mul, t, qs, o, a, b, x):
+    """x in {a, b}:  t*x <= o*(1+4e)          [lower bound / prefix length]"""
+    return _common(t, o, a, b) + [_jac_sim(mul, t, qs, o, a, b), x >= 0, x <= a + b - o], \
+        mul(t, x) <= o * (1 + 4 * e_)
+
+
+@lemma('jac_ub')
+def _(mul, t, qs, o, a, b, x, y, q2):
+    """q2 = x / t :  the other size y <= q2*(1+4e)          [upper bound]"""
+    return _common(t, o, a, b) + [_jac_sim(mul, t, qs, o, a, b), mul(q2, t) == x, o <= x, y >= 0,
+                                  y <= a + b - o, z3.Implies(z3.And(o == a, o == b), y == x)], \
+        y <= q2 * (1 + 4 * e_)
+
+
+@lemma('jac_othr')
+def _(mul, t, qs, o, a, b, w, gq, g):
+    """w = fl(1+t), gq = t/w, g = fl(gq):  g*(a+b) <= o*(1+8e)          [required overlap]"""
+    return _common(t, o, a, b) + [_jac_sim(mul, t, qs, o, a, b), up(w, 1 + t), mul(gq, w) == t, up(g, gq)], \
+        mul(g, a + b) <= o * (1 + 8 * e_)
+
+
+# --------------------------------------------------------------------- DICE
+@lemma('dice_low')
+def _(mul, t, qs, o, a, b, x, w, gq, g):
+    """w = fl(2-t), gq = t/w, g = fl(gq), x in {a,b}:  g*x <= o*(1+8e)"""
+    return _common(t, o, a, b) + [_dice_sim(mul, t, qs, o, a, b), up(w, 2 - t), mul(gq, w) == t, up(g, gq),
+                                  z3.Or(x == a, x == b)], \
+        mul(g, x) <= o * (1 + 8 * e_)
+
+
+@lemma('dice_ub')
+def _(mul, t, qs, o, a, b, x, y, w, hq, h):
+    """w = fl(2-t), hq = w/t, h = fl(hq); {x,y} = {a,b}:  h*x >= y*(1-8e)"""
+    return _common(t, o, a, b) + [_dice_sim(mul, t, qs, o, a, b), up(w, 2 - t), mul(hq, t) == w, up(h, hq),
+                                  z3.Or(z3.And(x == a, y == b), z3.And(x == b, y == a))], \
+        mul(h, x) >= y * (1 - 8 * e_)
+
+
+@lemma('dice_othr')
+def _(mul, t, qs, o, a, b, hf):
+    """hf = fl(t/2):  hf*(a+b) <= o*(1+4e)"""
+    return _common(t, o, a, b) + [_dice_sim(mul, t, qs, o, a, b), up(hf, t / 2)], \
+        mul(hf, a + b) <= o * (1 + 4 * e_)
+
+
+# ------------------------------------------------------------------- COSINE
+@lemma('cos_step')
+def _(mul, t, qs, o, a, b, Sa, Sb, sa, sb, d):
+    """o >= t * sqrt(a) * sqrt(b) * (1-6e)   (or the sets are equal)"""
+    return _common(t, o, a, b) + [_cos_sim(mul, t, qs, o, a, b, Sa, Sb, sa, sb, d)], \
+        z3.Or(z3.And(o == a, o == b), o >= mul(mul(t, Sa), Sb) * (1 - 6 * e_))
+
+
+@lemma('cos_low')
+def _(mul, t, o, a, b, Sa, Sb, x, t2):
+    """t2 = fl(t*t), x in {a,b}:  t2*x <= o*(1+16e)"""
+    return _common(t, o, a, b) + [z3.Or(z3.And(o == a, o == b),
+                                        z3.And(Sa >= 0, Sb >= 0, mul(Sa, Sa) == a, mul(Sb, Sb) == b,
+                                               o >= mul(mul(t, Sa), Sb) * (1 - 6 * e_))),
+                                  up(t2, mul(t, t)), z3.Or(x == a, x == b)], \
+        mul(t2, x) <= o * (1 + 16 * e_)
+
+
+@lemma('cos_ub')
+def _(mul, t, o, a, b, Sa, Sb, x, y, t2, q2):
+    """t2 = fl(t*t), q2 = x / t2, {x,y} = {a,b}:  y <= q2*(1+16e)"""
+    return _common(t, o, a, b) + [z3.Or(z3.And(o == a, o == b),
+                                        z3.And(Sa >= 0, Sb >= 0, mul(Sa, Sa) == a, mul(Sb, Sb) == b,
+                                               o >= mul(mul(t, Sa), Sb) * (1 - 6 * e_))),
+                                  up(t2, mul(t, t)), mul(q2, t2) == x, q2 >= 0,
+                                  z3.Or(z3.And(x == a, y == b), z3.And(x == b, y == a))], \
+        y <= q2 * (1 + 16 * e_)
+
+
+@lemma('cos_othr')
+def _(mul, t, o, a, b, Sa, Sb, flr, S, s):
+    """flr = fl(a*b), S = sqrt(flr), s = fl(S):  t*s <= o*(1+16e)"""
+    return _common(t, o, a, b) + [z3.Or(z3.And(o == a, o == b),
+                                        z3.And(Sa >= 0, Sb >= 0, mul(Sa, Sa) == a, mul(Sb, Sb) == b,
+                                               o >= mul(mul(t, Sa), Sb) * (1 - 6 * e_))),
+                                  up(flr, mul(a, b)), S >= 0, mul(S, S) == flr, up(s, S)], \
+        mul(t, s) <= o * (1 + 16 * e_)
+
+
+def prove_all(timeout_ms=30000, only=None):
     out = []
-    for name, (f, n, _) in sorted(LEMMAS.items()):
+    for name, (f, n) in sorted(LEMMAS.items()):
         if only is not None and name not in only:
             continue
         xs = [z3.Real('x%d' % i) for i in range(n)]
-        stmt = f(lambda a, b: a * b, *xs)
+        hyps, concl = f(lambda a, b: a * b, *xs)
         s = z3.Solver()
         s.set('timeout', timeout_ms)
-        s.add(z3.Not(stmt))
+        s.add(*hyps)
+        s.add(z3.Not(concl))
         t0 = time.time()
         r = s.check()
-        out.append(dict(name='lemma/' + name, kind='lemma', status=str(r) if r != z3.unsat else 'unsat',
+        status = 'unsat' if r == z3.unsat else str(r)
+        detail = (f.__doc__ or '').strip()
+        model = str(s.model()) if r == z3.sat else None
+        if r == z3.unsat and hyps:
+            v = z3.Solver()
+            v.set('timeout', timeout_ms)
+            v.add(*hyps)
+            rv = v.check()
+            if rv != z3.sat:
+                status = 'unknown'
+                detail += ' [vacuity guard: hypotheses %s]' % rv
+        out.append(dict(name='lemma/' + name, kind='lemma', status=status,
                         backend='z3-nlsat', secs=round(time.time() - t0, 4), fn='pyvc.lemmas', case=name,
-                        model=str(s.model()) if r == z3.sat else None, line=0, size=0,
-                        detail=(f.__doc__ or '').strip()))
+                        model=model, line=0, size=0, detail=detail))
     return out
+
+
+if __name__ == '__main__':
+    for r in prove_all():
+        print('%-8s %-22s %.3fs %s' % (r['status'], r['name'], r['secs'], r['detail'][:90]))
